@@ -3,6 +3,7 @@ SPECIFICATION Spec
 CONSTANTS
   Unit = 65536
   MaxV = 500000000
+  MaxPos = 500000000
   GUnit = 262144
 INVARIANT StackOK
 POSTCONDITION Accepted
